@@ -1780,7 +1780,146 @@ def c06(tier):
                       assumptions=["Unix host path semantics", "names in TLA+-decided cases are <= 500 bytes"])
 
 
-CHECKS = {"C06": c06, "C11": c11, "C20": c20, "C10": c10, "C04": c04, "C15": c15, "C16": c16, "C09": c09, "C19": c19, "C03": c03, "C13": c13, "C14": c14, "C01": c01, "C02": c02, "C12": c12, "C17": c17}
+
+def run_trace(rep, wd, module, trace, label, scen=None):
+    """validate a prepared trace file with a trace spec; rejections become violations"""
+    res = vlib.validate_segments(module + ".tla", module + ".cfg", trace, wd, tag=label)
+    rep.add_tv(res, scen or {}, label)
+    counts = rep.notes.setdefault("events_by_call", {})
+    for e in vlib.read_ndjson(trace):
+        counts[e.get("ev", "?")] = counts.get(e.get("ev", "?"), 0) + 1
+    rep.notes["spec_counters"] = dict(vlib.LAST_STATS)
+    return res
+
+
+def c18(tier):
+    import refzip
+    rep = Report("C18", tier)
+    wd = vlib.workdir("C18", tier)
+    vlib.build_harness()
+    # model level: all laws of DosTime.tla; the run also writes the tables the harness sweeps against
+    cfg = os.path.join(wd, "MC_DosTime_emit.cfg")
+    open(cfg, "w").write(open(os.path.join(vlib.SPEC, "MC_DosTime.cfg")).read().replace("Emit = FALSE", "Emit = TRUE"))
+    tables = os.path.join(wd, "dostime-tables.json")
+    r = vlib.tlc_mc("MC_DosTime.tla", cfg, wd, timeout=600, tag="mc-dostime", env={"OUT": tables})
+    rep.add_mc(r, "MC_DosTime.cfg")
+    if r["error"]:
+        rep.spec_violation(r, "MC_DosTime.cfg")
+    if not os.path.exists(tables):
+        raise ToolTrouble("MC_DosTime did not write its tables")
+    for bug, inv in (("month3", "WordsRoundTrip"), ("sec_raw", "WordsRoundTrip"), ("leap100", "Calendar")):
+        if tier == "quick" and bug == "sec_raw":
+            continue
+        r = vlib.tlc_mc("MC_DosTime.tla", "MC_DosTime_%s.cfg" % bug, wd, timeout=300, tag="mc-" + bug)
+        found = bool(r["error"]) and inv in r["error"]
+        rep.neg_controls.append({"spec_mutant": bug, "expected_violation": inv, "found": found})
+        if not found:
+            raise ToolTrouble("spec mutant %s not detected" % bug)
+    sd = vlib.seed()
+    rnd = random.Random(sd * 8191 + 18)
+    cases = [{"sc": "sweep", "kind": "sweep", "tables": tables, "tstep": 1, "tt_step": 1}]
+    # constructor: each field exhaustively over its whole machine type with the others at valid anchors,
+    # the full boundary-neighbour product, random joint values
+    anchors = [(1980, 1, 1, 0, 0, 0), (2107, 12, 31, 23, 59, 60), (2024, 2, 29, 12, 30, 31)]
+    args = []
+    for an in anchors:
+        ys = range(0, 65536) if (tier == "thorough" or an == anchors[0]) else list(range(1970, 2120)) + [0, 65535, 32768]
+        for y in ys:
+            args.append((y,) + an[1:])
+        for f in range(1, 6):
+            for v in range(256):
+                a = list(an)
+                a[f] = v
+                args.append(tuple(a))
+    import itertools
+    args += list(itertools.product((1979, 1980, 2107, 2108), (0, 1, 12, 13), (0, 1, 28, 31, 32), (0, 23, 24), (0, 59, 60), (0, 1, 59, 60, 61)))
+    for _ in range(3000 if tier == "quick" else 60000):
+        if rnd.random() < 0.5:
+            args.append((rnd.randrange(1975, 2112), rnd.randrange(0, 15), rnd.randrange(0, 34), rnd.randrange(0, 26), rnd.randrange(0, 62), rnd.randrange(0, 63)))
+        else:
+            args.append((rnd.randrange(65536), rnd.randrange(256), rnd.randrange(256), rnd.randrange(256), rnd.randrange(256), rnd.randrange(256)))
+    for i in range(0, len(args), 4000):
+        cases.append({"sc": "ctor%04d" % (i // 4000), "kind": "ctor", "args": [list(a) for a in args[i:i + 4000]]})
+    # words: every date word at boundary times (calendar validity incl. day 0/32-like words, month 0/13..15), random pairs
+    times = [0, 0xFFFF, (23 << 11) | (59 << 5) | 29, (23 << 11) | (59 << 5) | 30, (24 << 11), (23 << 11) | (60 << 5), (12 << 11) | (30 << 5) | 15]
+    words = []
+    for d in range(65536):
+        ts = times if tier == "thorough" else [times[(d * 7 + sd) % len(times)]]
+        for t in ts:
+            words.append((d, t))
+    for t in range(0, 65536, 1 if tier == "thorough" else 5):
+        words.append(((44 << 9) | (2 << 5) | 29, t))
+    for _ in range(4000 if tier == "quick" else 100000):
+        words.append((rnd.randrange(65536), rnd.randrange(65536)))
+    for i in range(0, len(words), 4000):
+        cases.append({"sc": "words%04d" % (i // 4000), "kind": "words", "w": [list(w) for w in words[i:i + 4000]]})
+    # TryFrom: every calendar day 1979-01-01 .. 2108-12-31 (+ far outside), boundary seconds of day
+    import datetime
+    d0 = (datetime.date(1979, 1, 1) - datetime.date(1970, 1, 1)).days
+    d1 = (datetime.date(2108, 12, 31) - datetime.date(1970, 1, 1)).days
+    sods = [0, 1, 59, 60, 3599, 3600, 43200, 86398, 86399]
+    zs = []
+    for z in range(d0, d1 + 1):
+        for sod in (sods if tier == "thorough" else [sods[(z + sd) % len(sods)]]):
+            zs.append((z, sod))
+    for y in (1, 1000, 1582, 1900, 1969, 1970, 2200, 9999):
+        z = (datetime.date(y, 1, 1) - datetime.date(1970, 1, 1)).days
+        zs += [(z, 0), (z + 58, 86399), (z + 364, 12345)]
+    zs += [(-719468, 0), (-1, 86399), (0, 0)]
+    for i in range(0, len(zs), 4000):
+        cases.append({"sc": "tryfrom%04d" % (i // 4000), "kind": "tryfrom", "z": [list(z) for z in zs[i:i + 4000]]})
+    # archive round trips: accepted constructor values, arbitrary words, a foreign archive with arbitrary words
+    na = 40 if tier == "quick" else 1500
+    for i in range(na):
+        acc = [(rnd.randrange(1980, 2108), rnd.randrange(1, 13), rnd.randrange(1, 32), rnd.randrange(24), rnd.randrange(60), rnd.randrange(61)) for _ in range(24)]
+        acc += [(1980, 1, 1, 0, 0, 0), (2107, 12, 31, 23, 59, 60), (2107, 12, 31, 23, 59, 59)]
+        cases.append({"sc": "arc-ctor%04d" % i, "kind": "archive_ctor", "args": [list(a) for a in acc]})
+        ws = [(rnd.randrange(65536), rnd.randrange(65536)) for _ in range(24)] + [(0, 0), (0xFFFF, 0xFFFF), (0x21, 0)]
+        cases.append({"sc": "arc-words%04d" % i, "kind": "archive_words", "w": [list(w) for w in ws]})
+        ents = [{"name": b"t%d" % k, "method": rnd.choice([0, 8]), "data": b"x" * k, "date": rnd.randrange(65536), "time": rnd.randrange(65536)} for k in range(12)]
+        b, v = refzip.build({"entries": ents})
+        cases.append({"sc": "foreign%04d" % i, "kind": "foreign", "hex": b.hex()})
+    progs = os.path.join(wd, "dostime-cases.ndjson")
+    trace = os.path.join(wd, "dostime-trace.ndjson")
+    vlib.write_ndjson(progs, cases)
+    vlib.run_harness(["texec", progs, trace])
+    run_trace(rep, wd, "Trace_DosTime", trace, "dostime", {c["sc"]: {"sc": c["sc"], "kind": c["kind"]} for c in cases})
+    evs = vlib.read_ndjson(trace)
+    sw = next(e for e in evs if e.get("ev") == "TSweep")
+    rep.notes["sweep"] = {k: sw[k] for k in ("dwords", "twords", "tstep", "mismatches", "panics", "to_time_checked_k", "to_time_ok_k")}
+    rep.evaluations += sw["dwords"] * sw["twords"] + len(args) + len(words) + len(zs)
+    for a in args:
+        rep.distinct.add(("c",) + a)
+    for w in words:
+        rep.distinct.add(("w",) + w)
+    for z in zs:
+        rep.distinct.add(("z",) + z)
+    rep.samples.append(next(e for e in evs if e.get("ev") == "TCtor" and e.get("r") == "ok"))
+    rep.samples.append(next(e for e in evs if e.get("ev") == "TArchive"))
+    # binding demonstration: perturb one logged field in each family
+    for evn, fld in (("TCtor", "tp"), ("TWords", "days"), ("TArchive", "lt")):
+        seg = [{"ev": "Reset", "sc": "neg"}] + [dict(e, sc="neg") for e in evs if e.get("ev") == evn and e.get("r", "ok") == "ok" and e.get("tt", "ok") in ("ok",) or (e.get("ev") == evn == "TCtor" and e.get("r") == "ok")][:5]
+
+        def mutate(es, fld=fld, evn=evn):
+            es[-1][fld] = es[-1][fld] + 1
+            return "%s.%s off by one" % (evn, fld)
+        nc = vlib.corrupt_and_expect_reject("Trace_DosTime.tla", "Trace_DosTime.cfg", seg, wd, mutate, tag="dostime-neg")
+        rep.neg_controls.append(nc)
+        if not nc["rejected"]:
+            raise ToolTrouble("negative control did not fire: " + nc["mutation"])
+    return rep.finish("model_checking",
+                      "MC_DosTime: pack/unpack identities for all 2^16 date and 2^16 time words, constructor range vs calendar, two independent "
+                      "day-count formulations + inverse for every day 1979..2108 (spec mutants month3/sec_raw/leap100 found); spec -> impl: the tables "
+                      "TLC computes from DosTime.tla are swept against from_msdos + six accessors + datepart/timepart + to_time + TryFrom for ALL "
+                      "2^32 (date, time) pairs; impl -> spec: constructor with each field exhaustive over its machine type + boundary product + random "
+                      "joints, every date word at boundary times, TryFrom on every day 1979-01-01..2108-12-31 and far outside, archive round trips "
+                      "(accepted values; arbitrary words; foreign archives; re-writing what was read, via writer and raw copy) with the words lexed "
+                      "independently from the bytes - all validated against DosTime.tla by Trace_DosTime",
+                      assumptions=["the `time` crate's OffsetDateTime <-> unix timestamp mapping is the calendar referee's trusted base only in the sense that its results must equal the spec's day count",
+                                   "UTC offsets only (DateTime has no zone)"])
+
+
+CHECKS = {"C18": c18, "C06": c06, "C11": c11, "C20": c20, "C10": c10, "C04": c04, "C15": c15, "C16": c16, "C09": c09, "C19": c19, "C03": c03, "C13": c13, "C14": c14, "C01": c01, "C02": c02, "C12": c12, "C17": c17}
 
 
 def setup():
